@@ -14,7 +14,8 @@ Local Open Scope list_scope.
 Definition tplans_of (jb : job) (a : analysis) : tplans :=
   {| tp_src := j_src jb; tp_dst := j_dst jb; tp_to := a_to a; tp_from := a_from a;
      tp_src_acc := j_src_acc jb; tp_dst_acc := j_dst_acc jb;
-     tp_src_ptr := p_ptr (a_src_parsed a); tp_dst_ptr := p_ptr (a_dst_parsed a) |}.
+     tp_src_ptr := p_ptr (a_src_parsed a); tp_dst_ptr := p_ptr (a_dst_parsed a);
+     tp_mapper_hop := j_mapper_hop jb |}.
 
 (* the generated mappers of a run: one analysis per job ([sigma]: map iteration order) *)
 Definition penv_of (sigma : oracle) (jobs : list job) : option penv :=
@@ -80,10 +81,12 @@ Definition side_gen (e : env) (F : nat) (p : pkg) (n : string) : bool :=
   | _ => false
   end.
 
+(* no accessors, no constructors, and the mapper (if any) is not embedded by
+   pointer with value-receiver methods: K_map_mapper_ptr_embedded *)
 Definition plain_gen (jb : job) : bool :=
-  match j_src_acc jb, j_dst_acc jb, j_src_ctor jb, j_dst_ctor jb with
-  | [], [], [], [] => true
-  | _, _, _, _ => false
+  match j_src_acc jb, j_dst_acc jb, j_src_ctor jb, j_dst_ctor jb, j_mapper_hop jb with
+  | [], [], [], [], None => true
+  | _, _, _, _, _ => false
   end.
 
 Definition job_gen_guard (e : env) (F : nat) (jobs : list job) (jb : job) : bool :=
